@@ -123,7 +123,7 @@ def _worker(i):
 
 def run_cells(fn, cells, jobs=None):
     """Map fn over cells with a fork pool (the parsed project is shared copy-on-write)."""
-    jobs = jobs or min(16, os.cpu_count() or 1)
+    jobs = jobs or int(os.environ.get("YADSA_POOL", "0")) or min(16, os.cpu_count() or 1)
     if len(cells) < 8 or jobs <= 1:
         out = []
         for c in cells:
